@@ -85,6 +85,15 @@ def gen_instance(rng, profile="mixed", nj=None, nm=None):
         profile = rng.choice(["classic", "transport", "transport", "buffers", "buffers", "full", "full"])
     if profile == "race":
         return gen_race(rng)
+    if profile == "zerotravel":
+        d, feats = gen_instance(rng, "transport", nj=rng.randint(2, 3), nm=2)
+        names = ["m-0", "m-1", "in-buf", "out-buf"]
+        nagv = rng.randint(1, 2)
+        d["instance_config"]["logistics"] = {"type": "agv", "amount": nagv,
+                                              "specification": matrix_text(names, [[0] * 4 for _ in range(4)])}
+        d.pop("init_state", None)
+        feats.update(profile="zerotravel", travel="zero", nagv=nagv, start_time=0)
+        return d, feats
     nj = nj or rng.randint(2, 4)
     nm = nm or rng.randint(2, 3)
     feats = {"profile": profile, "nj": nj, "nm": nm}
@@ -219,3 +228,21 @@ class Policy:
         if self.bad_p and self.rng.random() < self.bad_p:
             return self.rng.choice([2, -1, 7, 3])
         return 1 if self.rng.random() < self.p else 0
+
+
+class PhasedPolicy:
+    """decline n1 times, then accept n2 times, then decline for the rest (episodes that idle first, schedule
+    everything and finish by declining) - with a little noise; seeded."""
+
+    def __init__(self, rng):
+        self.rng = rng
+        self.n1, self.n2 = rng.randint(0, 9), rng.randint(3, 40)
+        self.noise = rng.choice([0.0, 0.0, 0.1])
+        self.k = 0
+
+    def __call__(self, env):
+        self.k += 1
+        a = 0 if self.k <= self.n1 else (1 if self.k <= self.n1 + self.n2 else 0)
+        if self.noise and self.rng.random() < self.noise:
+            a = 1 - a
+        return a
